@@ -234,6 +234,16 @@ def main():
                     text = text[:cut]
             deps[name] = [d for d in deps_of(text) if d != name]
         sites = cfg_sites(repo)
+        # src/simd/runtime.rs (feature cache + dispatch) is modelled by hand in Hx/Scan/Dispatch.lean
+        # (step machine for the C13 race theorem, `backendFor`); its text is pinned: a change there means the
+        # hand-written model no longer applies and the theorems about it no longer speak about the code
+        rt = open(os.path.join(repo, "src", "simd", "runtime.rs")).read()
+        rt = drop_verif_items(strip_comments(rt))
+        rt = re.sub(r"#\[allow\(missing_docs\)\]\s*", "", rt)
+        norm = " ".join(re.findall(r"[A-Za-z_][A-Za-z0-9_]*!?|\"[^\"]*\"|\d+|::|=>|==|[^\sA-Za-z0-9_]", rt))
+        want = open(os.path.join(os.path.dirname(os.path.abspath(__file__)), "runtime_rs.pinned.txt")).read().strip()
+        if norm != want:
+            raise Fail("src/simd/runtime.rs changed; the hand-written model Hx/Scan/Dispatch.lean (feature cache step machine, dispatch) no longer applies")
         L = ["/- GENERATED by /verif/tools/cfg2lean.py from src/simd/mod.rs — do not edit. -/\n" + hdr, "def sourceOk : Bool := true\n"]
         for fn, cond in defs:
             L.append("def %s (f : Flags) : Bool := %s" % (fn, cond))
